@@ -180,7 +180,8 @@ func (r ReductionDatasource) Execute(ctx context.Context, from time.Time, to tim
 
 	var outputDataStream stream.Stream[timeseries.TsRecord[any]]
 	// optimization for a single-datasource case: return the single stream directly
-	if len(streams) == 1 && r.reductionType.UseIdentityWhenSingleValue() {
+	// (only when the reduction preserves the data type, e.g. avg of an integer datasource must still yield decimals)
+	if len(streams) == 1 && r.reductionType.UseIdentityWhenSingleValue() && resultDataType == dataType {
 		outputDataStream = streams[0]
 	} else {
 		// Use InnerJoinStreams to reduce all values
